@@ -289,3 +289,71 @@ def c08(tier, seed):
     if tier == "thorough":
         qs += fam("1500", frame_n=1500) + fam("9216", frame_n=9216) + fam("symmtu", frame_n=9216, mtu_min=576, timeout=1800, mem_gb=16)
     return qs
+
+
+SAFETY_ALL = ("C01", "C18")
+
+
+def q_safety_class(cls, live, name, K=2, frame_n=576, defines=None, unwind=None, replace_extra=None, **kw):
+    rep = unreach(*live)
+    if replace_extra:
+        rep.update(replace_extra)
+    d = ["SAFETY_CLASS=%d" % cls] + list(defines or [])
+    return blkq("blk_safety_%s_%d" % (name, frame_n), "h_safety", K=K, frame_n=frame_n, defines=d, replace=rep, unwind=unwind if unwind is not None else K + 4,
+                desc="memory-safety / UB instrumentation (bounds, pointer validity, pointer overflow, signed overflow, shifts, div-by-zero, double free) of real parseFrame and the '%s' handler chain; frame = arbitrary bytes" % name, **kw)
+
+
+def c01_block_queries(frame_n=576, K=2, hello_pairs=((0, 0), (40, 40))):
+    maxd = (frame_n - 34) // 14
+    qs = []
+    for (h, s) in hello_pairs:
+        qs.append(q_safety_class(0, ["answerHello"], "discover_h%d_s%d" % (h, s), K=K, frame_n=frame_n, defines=["HOSTLEN=%d" % h, "SSIDLEN=%d" % s], unwind=max(K + 4, 8)))
+    qs.append(q_safety_class(2, ["parseEmit"], "emit", K=K, frame_n=frame_n, unwind=maxd + 2))
+    qs.append(q_safety_class(3, ["parseProbe"], "probe", K=K, frame_n=frame_n))
+    qs.append(q_safety_class(6, ["parseQuery"], "query", K=K, frame_n=frame_n))
+    qs.append(q_safety_class(8, [], "reset", K=K, frame_n=frame_n))
+    qs.append(q_safety_class(11, ["parseQueryLargeTlv"], "qltlv", K=K, frame_n=frame_n, defines=["V_MEMCPY_RECORD"], unwind=36))
+    qs.append(q_safety_class(255, [], "other", K=K, frame_n=frame_n))
+    return qs
+
+
+@prop("C01", ["receive buffer = heap object of exactly MTU bytes with arbitrary content (what every daemon allocates); ESP32 entry: object of exactly `length` bytes",
+              "class split of the (ToS,opcode) space is itself asserted (unreachable-handler stubs); MTU fixed per query (576; thorough adds 1500 and 9216)",
+              "sequences of frames: every class query starts from an arbitrary valid interface record and re-establishes the record invariant (one inductive step)",
+              "QueryLargeTlv payload copy: region validity asserted through the port memcpy contract (r_ok/w_ok of the exact source/destination ranges)",
+              "known finding (not repaired): derive_session_event scans the wire station count with no knowledge of the buffer size; the excluding variant (count fits in the buffer) must pass"])
+def c01(tier, seed):
+    qs = c01_block_queries(576)
+    qs.append(q_emit_loop(576, valid_kinds=False))
+    qs.append(q_emit_send())
+    nst = (576 - 36) // 6
+    b = {"frame": "576 arbitrary bytes", "table": "16 arbitrary entries or none", "station count": "0..65535"}
+    qs.append(Query("c01_classifier_any", "c01_entries.c", "h_classifier", defines=["MTU=576"], unwind=nst + 2, bounds=b, unwind_fail_is_violation=True,
+                    backends=("cadical", "minisat"), timeout=900, desc="derive_session_event on the MTU-sized buffer, any station count (known finding expected)"))
+    qs.append(Query("c01_classifier_fit", "c01_entries.c", "h_classifier", defines=["MTU=576", "STATIONS_FIT"], unwind=nst + 2, bounds=dict(b, **{"station count": "0..%d (fits)" % nst}),
+                    backends=("cadical", "minisat"), timeout=900, desc="same, station list held by the buffer (excluding variant of the known finding)"))
+    qs.append(Query("c01_esp32", "c01_entries.c", "h_esp32", defines=["MTU=576"], unwind=18, bounds={"length": "0..576, buffer object of exactly that many bytes", "automata": "real constructors, arbitrary current_state < states_no"},
+                    backends=("cadical", "minisat"), timeout=900, desc="lltd_esp32_handle_frame: never reads past the given length; automata steps safe for raw opcodes 0..255"))
+    qs += [x for x in c12("quick", seed) if x.name == "c12_tick"]
+    qs += c14("quick", seed) + c15("quick", seed)
+    if tier == "thorough":
+        qs += c01_block_queries(1500, hello_pairs=((33, 31),)) + c01_block_queries(9216, hello_pairs=((32, 32),))
+        qs.append(q_emit_loop(1500, valid_kinds=False))
+    return qs
+
+
+def q_pair(K=2, query=False):
+    live = ["parseProbe"] + (["parseQuery"] if query else [])
+    return blkq("blk_pair%s_K%d" % ("_query" if query else "", K), "h_pair", live=live, K=K, defines=["PAIR_QUERY"] if query else [], unwind=K + 5, no_std_checks=True,
+                bounds={"A,B": "arbitrary distinct addresses; A has an active mapper; B has an arbitrary own observation list (unrelated traffic) not containing this pair yet",
+                        "descriptor": "any source, destination = B, Probe or Train, any pause, ack or not"},
+                desc="real sendProbeMsg on A -> captured 32 bytes -> real parseFrame/parseProbe on B%s" % (" -> Query to B -> QueryResp oracle" if query else ""))
+
+
+@prop("C10", ["one descriptor per query (an Emit is a sequence of independent sendProbeMsg calls - C06); B's earlier observations (unrelated traffic) arbitrary but without this (Ethernet source, real source) pair, K bound stated",
+              "delivery unmodified: the 32 captured bytes are copied to the head of B's MTU-sized receive buffer, remaining bytes arbitrary"])
+def c10(tier, seed):
+    qs = [q_pair(2), q_pair(2, query=True), q_emit_send()]
+    if tier == "thorough":
+        qs += [q_pair(6), q_pair(6, query=True)]
+    return qs
